@@ -344,14 +344,15 @@ class Prover:
         edges that carry that value, so what holds on all of those edges holds in the arm"""
         cfg = self.an.cfg
         tm, arms, complete = compute_threads(self.an)
-        if not complete:
+        unknown = getattr(self.an, "_threads_unknown", {})
+        if not unknown and not complete:
             return
         busy = self.__dict__.setdefault("_thread_busy", set())
         for d in cfg.dominators(node):
             if d < cfg.nblocks:
                 continue
             e = cfg.edges[d - cfg.nblocks]
-            if e.src not in complete:
+            if e.src not in complete and e.src not in unknown:
                 continue
             if e.label[0] == "switch":
                 ks = [e.label[1]]
@@ -360,11 +361,12 @@ class Prover:
                 ks = sorted({k for (S_, k) in arms if S_ == e.src and k not in seen})
             else:
                 continue
-            if e.label[0] == "otherwise" and len(ks) == 1:
+            if e.label[0] == "otherwise" and len(ks) == 1 and e.src in complete:
                 ec = self.an.edge_cond.get(d)
                 if ec is not None and ec[0] == "switch":
                     self.decompose_eq(ec[1], ks[0], ec[3], out)
-            ins = [x for k in ks for x in arms.get((e.src, k), [])]
+            # the ways in whose value is known to be this arm's, plus those whose value is not known (they may take any arm)
+            ins = [x for k in ks for x in arms.get((e.src, k), [])] + list(unknown.get(e.src, []))
             if not ins or (e.src, tuple(ks)) in busy:
                 continue
             busy.add((e.src, tuple(ks)))
@@ -692,8 +694,11 @@ def compute_threads(an):
             return 1
         return None
 
-    def classify(J, L, boolneg, depth=0):
-        """[(edge node, k)] for every way into join J, and whether all of them are known"""
+    unknown = {}
+
+    def classify(J, L, boolneg, depth=0, unk=None):
+        """[(edge node, k)] for every way into join J, and whether all of them are known; the ways in whose value is
+        not known are collected in unk"""
         res, allk = [], True
         for e in cfg.in_edges[J]:
             st = an.out_state.get(e.src)
@@ -711,16 +716,18 @@ def compute_threads(an):
                     and len(cfg.in_edges[v[2][boolneg[2]][1]]) >= 2:
                 # Ok(flag) where the flag itself was joined just before (`Ok(matches!(..))`)
                 p2 = v[2][boolneg[2]]
-                sub, suball = classify(p2[1], p2[2], boolneg[3], depth + 1)
+                sub, suball = classify(p2[1], p2[2], boolneg[3], depth + 1, unk)
                 res += sub
                 allk = allk and suball
             elif v[0] == "phi" and v != ("phi", J, L) and depth < 12 and v[1] != J and \
                     (v[1] == e.src or straight(v[1], e.src)) and len(cfg.in_edges[v[1]]) >= 2:
-                sub, suball = classify(v[1], v[2], boolneg, depth + 1)
+                sub, suball = classify(v[1], v[2], boolneg, depth + 1, unk)
                 res += sub
                 allk = allk and suball
             else:
                 allk = False
+                if unk is not None:
+                    unk.append(e.node)
         return res, allk
     for S_ in range(cfg.nblocks):
         info = an.term.get(S_)
@@ -750,7 +757,10 @@ def compute_threads(an):
         J = tracked[1]
         if J not in an.in_state or len(cfg.in_edges[J]) < 2 or not straight(J, S_):
             continue
-        res, allk = classify(J, tracked[2], boolneg)
+        unk = []
+        res, allk = classify(J, tracked[2], boolneg, 0, unk)
+        if res:
+            unknown[S_] = unk
         for n, k in res:
             lst = tm.setdefault(n, [])
             if not any(x[0] == S_ for x in lst):
@@ -759,4 +769,5 @@ def compute_threads(an):
         if allk and res:
             complete.add(S_)
     an._threads = (tm, arms, complete)
+    an._threads_unknown = unknown
     return an._threads
